@@ -394,6 +394,15 @@ def writer_strategy() -> Any:
                 steps.append({"op": "advance", "dt": draw(st.sampled_from((4.0, 361.0, 1000.0, 3700.0, 7300.0, 14500.0, 90000.0)))})
                 steps.append(dict(draw(w(k)), op="rx"))
                 continue
+            if draw(st.integers(0, 15)) == 0:
+                # a NEIGHBOUR's controller broadcasts its zone array, and ours follows with the same code at once (nothing in between, well
+                # inside 3 s): our zones follow OUR array - the neighbour's is another system's traffic
+                k = draw(st.sampled_from(("z000A-arr", "z000A-arr", "z2309-arr", "z30C9-arr")))
+                nb = {"z000A-arr": " I --- 01:078710 --:------ 01:078710 000A 012 001001F40BB8011001F40BB8",
+                      "z2309-arr": " I --- 01:078710 --:------ 01:078710 2309 006 0008FC0108FC", "z30C9-arr": " I --- 01:078710 --:------ 01:078710 30C9 006 0008FC0108FC"}[k]
+                steps.append({"op": "rx", "kind": "noise", "frame": nb, "eff": [], "L": 0.0})
+                steps.append(dict(draw(w(k)), op="rx"))
+                continue
             if draw(st.integers(0, 3)) == 0:
                 steps.append({"op": "advance", "dt": draw(st.sampled_from((1.0, 30.0, 200.0, 361.0, 725.0, 1000.0, 1801.0, 2500.0, 3700.0, 7300.0, 14500.0,
                                                                             29000.0, 90000.0, 173000.0)))})
